@@ -496,7 +496,18 @@ Section UtSetBridge.
     rewrite (g_run_is_ul_run h 0%Z (uml_init ttl) (um_init ttl) (um_inv_init ttl 0%Z L) M NC (ul_rep_init ttl)) in E.
     eapply ul_cells_match_entries; eauto.
   Qed.
+
+  (* ---- the constructor, translated (member initialisers + body): it builds the literal machine's initial state,
+     so the whole-history theorem starts from what the source constructs ---- *)
+  Lemma g_init_ok (ttl : Z) : (g_init ttl : uml K unit) = uml_init ttl.
+  Proof. reflexivity. Qed.
+  Theorem generated_utset_constructed_no_UB_on_any_history : forall ttl (h : list (ev K V)),
+      (0 <= ttl)%Z -> mono_from 0 h -> no_clear h ->
+      exists l', run_res g_step (g_init ttl) h = Ok (l', snd (run um_step (um_init ttl) h)) /\
+                 ul_rep l' (fst (run um_step (um_init ttl) h)).
+  Proof. intros ttl h L M NC. rewrite g_init_ok. apply generated_utset_no_UB_on_any_history; auto. Qed.
 End UtSetBridge.
 
 Print Assumptions generated_utset_cells_match_entries.
 Print Assumptions generated_utset_no_UB_on_any_history.
+Print Assumptions generated_utset_constructed_no_UB_on_any_history.
